@@ -767,11 +767,12 @@ def c04(tier, rng, fam='C04'):
 
 def c01_storm(tier, rng, fam='C01'):
     """waves of unary calls released at the same instant on one connection; each caller checks its own reply"""
-    n, reps = (1280, 8) if tier == 'quick' else (12800, 16)
+    n, reps = (12800, 8) if tier == 'quick' else (64000, 16)
     out = []
     for s_ in range(reps):
-        big = bool(s_ % 2)
-        out.append(dict(fam=fam, tag='storm of %d unary calls, 64 at a time, %s payloads, seed %d' % (n, 'large' if big else 'small', s_),
-                        runner='history', n=n // (4 if big else 1), par=64, storm=True, big=big, seed=rng.randrange(1 << 30),
+        big = (s_ % 4 == 3)
+        m = n // (16 if big else 1)
+        out.append(dict(fam=fam, tag='storm of %d unary calls, 64 at a time, %s payloads, seed %d' % (m, 'large' if big else 'small', s_),
+                        runner='history', n=m, par=64, storm=True, big=big, seed=rng.randrange(1 << 30),
                         steps=[dict(op='storm')]))
     return out
